@@ -947,6 +947,32 @@ impl World {
     /// (the clock is then advanced to the limit).
     pub fn step(&mut self, until_ms: u64) -> Option<Step> {
         let st = self.step_inner(until_ms)?;
+        // activity of the real code under test, measured (part of every evidence file)
+        self.count(match st.kind {
+            StepKind::Deliver { accepted: true, .. } => "real_socket_events_handled",
+            StepKind::Deliver { .. } => "sim_datagrams_not_delivered",
+            StepKind::Tick { .. } => "real_poll_timeouts_handled",
+            StepKind::Frame { .. } => "real_device_events_handled",
+            _ => "sim_scenario_actions",
+        });
+        if !st.sent.is_empty() {
+            self.count_n("real_datagrams_sent", st.sent.len() as u64);
+        }
+        if st.writes > 0 {
+            self.count_n("real_device_writes", st.writes as u64);
+        }
+        for p in &st.probes {
+            match p {
+                Event::Seal { .. } => self.count("real_seals"),
+                Event::HandshakeDone { .. } => self.count("real_handshakes_completed"),
+                Event::Lookup { .. } => self.count("real_table_lookups"),
+                Event::ClaimsSet { .. } => self.count("real_announcements_processed"),
+                Event::KeyRotated { .. } => self.count("real_keys_rotated"),
+                Event::BeaconStored { .. } => self.count("real_beacons_stored"),
+                Event::BeaconLoaded { .. } => self.count("real_beacons_loaded"),
+                _ => {}
+            }
+        }
         if let Some(from) = self.trace_from_ms {
             if self.now_ms >= from && self.render.is_some() {
                 let sent: Vec<String> = st.sent.iter().map(|id| {
